@@ -175,15 +175,27 @@ class Rewriter:
 
     # ---------------------------------------------------------------- R12
     def format_macros(self, text):
-        """R12: `format!(..)` only ever builds error-message text here; it becomes an opaque String producer."""
-        while True:
-            m = mask(text)
-            mm = re.search(r'(?<![A-Za-z0-9_])format!\s*\(', m)
-            if not mm:
-                return text
-            c = match_close(m, mm.end() - 1)
-            self.log.append(('R12', 'format!(..) -> opaque_msg()'))
-            text = text[:mm.start()] + 'opaque_msg()' + text[c + 1:]
+        """R12: `format!(fmt, args..)` only ever builds error-message text here; it becomes an opaque String producer.
+        R17: `eprintln!(fmt, args..)` (diagnostics on stderr) is dropped.  In both cases the ARGUMENT expressions are still
+        evaluated (`let _ = (args);`), so their slicing / `?` obligations and control flow are kept."""
+        for macro, rule in (('format', 'R12'), ('eprintln', 'R17')):
+            while True:
+                m = mask(text)
+                mm = re.search(r'(?<![A-Za-z0-9_])' + macro + r'!\s*\(', m)
+                if not mm:
+                    break
+                c = match_close(m, mm.end() - 1)
+                args = split_top_commas(text[mm.end():c])[1:]
+                keep = ('let _ = (%s); ' % ', '.join(args)) if args else ''
+                if macro == 'format':
+                    rep = ('{ %sopaque_msg() }' % keep) if keep else 'opaque_msg()'
+                    self.log.append((rule, 'format!(..) -> opaque_msg()' + (' (arguments still evaluated)' if keep else '')))
+                else:
+                    rep = '{ %s}' % keep
+                    end = c + 1
+                    self.log.append((rule, 'eprintln!(..) dropped' + (' (arguments still evaluated)' if keep else '')))
+                text = text[:mm.start()] + rep + text[c + 1:]
+        return text
 
     # ---------------------------------------------------------------- loops
     @staticmethod
